@@ -709,7 +709,18 @@ impl ModelSink {
         if attached.is_empty() {
             return false;
         }
-        let victim = attached[selector as usize % attached.len()];
+        // Half of the time a script goes for the elements a tree builder is most likely to be
+        // holding on to: head / form / template / table / select / html / body and friends.
+        let special: Vec<Id> = attached
+            .iter()
+            .cloned()
+            .filter(|&i| matches!(dom.local_name(i), Some("head" | "form" | "template" | "table" | "select" | "html" | "body" | "tbody" | "tr" | "b" | "a" | "i" | "p" | "div" | "svg" | "math")))
+            .collect();
+        let victim = if (selector >> 16) & 1 == 1 && !special.is_empty() {
+            special[selector as usize % special.len()]
+        } else {
+            attached[selector as usize % attached.len()]
+        };
         dom.detach(victim);
         true
     }
